@@ -79,8 +79,9 @@ theorem incremental_refines_fresh (hF : Frame ck) (hL : LocalW ck) (hK : Kinds c
       (run ck ops (fresh ck S0)).sources = applyOps ck.root ops S0 := by
   have hinv : Inv ck (run ck ops (fresh ck S0)) := by
     unfold run
-    exact foldl_inv (Inv ck) (step ck) ops (fun s o _ hs => step_inv ck hF hL hK s o hs) _
-      (fresh_inv ck S0)
+    exact (foldl_inv (fun s => GraphFresh s ∧ Inv ck s) (step ck) ops
+      (fun s o _ hs => ⟨graphFresh_step ck s o, step_inv ck hF hL hK s o hs.1 hs.2⟩) _
+      ⟨(rfl : (fresh ck S0).graph = (fresh ck S0).sources), fresh_inv ck S0⟩).2
   have hsrc := sources_run ck ops (fresh ck S0)
   refine ⟨fun k e => ?_, fun x => ?_, hsrc⟩
   · rw [hinv.2 k e, hsrc]; rfl
@@ -141,6 +142,95 @@ theorem incremental_refines_fresh_epochs (e : EChecker Mod Content Sig Err) (hN 
       err ∈ getErrors (fresh (e.at T) (applyOps e.base.root ops S0)) k := by
   rw [runE_eq_run e hN, at_eq_of_stable e hN T 0]
   exact (incremental_refines_fresh (e.at 0) hF hL hK S0 ops).1 k err
+
+/-- **`graph_fresh`**: after every history the stored dependency graph (`dep_graph`, which
+`rename_module` and `remove` of the NEXT operation query) is the graph of the current sources:
+`dep_graph = DependencyGraph::new(parsed_modules)`.  No hypothesis on the checker.  (A rebuild
+placed before the modules are moved — seeded fault C11f — falsifies exactly this.) -/
+theorem graph_fresh (S0 : Sources Mod Content) (ops : List (Op Mod Content)) :
+    (run ck ops (fresh ck S0)).graph = (run ck ops (fresh ck S0)).sources := by
+  have : GraphFresh (run ck ops (fresh ck S0)) := by
+    unfold run
+    exact foldl_inv GraphFresh (step ck) ops (fun s o _ _ => graphFresh_step ck s o) _ rfl
+  exact this
+
+/-- **`rename_single`**: what one effective rename `(a, b)` does to the file map and to
+`global_cx`, whatever `b` was before (absent, an existing module that is overwritten, or `a`
+itself): the text of `a` ends up under `b`, nothing under `a` (unless `a = b`), the signature under
+`b` is the one built for `b`, everything else is untouched. -/
+theorem rename_single (s : State Mod Content Sig Err) (a b : Mod) (c : Content)
+    (ha : a ≠ ck.root) (hb : b ≠ ck.root) (hl : lookup s.sources a = some c) :
+    (∀ x, lookup (rename ck s [(a, b)]).sources x =
+        if b = x then some c else if a = x then none else lookup s.sources x) ∧
+      (∀ x, lookup (rename ck s [(a, b)]).globalCx x =
+        if b = x then some (ck.sig b c) else if a = x then none else lookup s.globalCx x) := by
+  have hp : renamePairs ck.root [(a, b)] = [(a, b)] := by simp [renamePairs, ha, hb]
+  have hs : (rename ck s [(a, b)]).sources = insert (erase s.sources a) b c := by
+    simp only [rename, hp, List.foldl_cons, List.foldl_nil, renameOne, hl]; rfl
+  have hgc : (rename ck s [(a, b)]).globalCx = insert (erase s.globalCx a) b (ck.sig b c) := by
+    simp only [rename, hp, List.foldl_cons, List.foldl_nil, renameOne, hl]; rfl
+  exact ⟨fun x => by rw [hs, lookup_insert, lookup_erase],
+    fun x => by rw [hgc, lookup_insert, lookup_erase]⟩
+
+/-- **`rename_self_identity`**: renaming a module onto its own name is the identity on the file
+map, and leaves `global_cx` with the (rebuilt) signature of that module — it must not lose it
+(seeded fault C10f: `remove(old)` after `insert(new)`). -/
+theorem rename_self_identity (s : State Mod Content Sig Err) (m : Mod) (c : Content)
+    (hm : m ≠ ck.root) (hl : lookup s.sources m = some c) :
+    (∀ x, lookup (rename ck s [(m, m)]).sources x = lookup s.sources x) ∧
+      lookup (rename ck s [(m, m)]).globalCx m = some (ck.sig m c) ∧
+      (∀ x, x ≠ m → lookup (rename ck s [(m, m)]).globalCx x = lookup s.globalCx x) := by
+  obtain ⟨h1, h2⟩ := rename_single ck s m m c hm hm hl
+  refine ⟨fun x => ?_, ?_, fun x hx => ?_⟩
+  · rw [h1]; by_cases h : m = x
+    · subst h; simp [hl]
+    · simp [h]
+  · rw [h2]; simp
+  · rw [h2]; have : ¬ m = x := fun e => hx e.symm
+    simp [this]
+
+/-- **`rename_missing_noop`**: a rename whose old name is not a file changes neither the file map
+nor `global_cx` (the new name, if it is a module, keeps its text and signature). -/
+theorem rename_missing_noop (s : State Mod Content Sig Err) (a b : Mod)
+    (hl : lookup s.sources a = none) :
+    (rename ck s [(a, b)]).sources = s.sources ∧ (rename ck s [(a, b)]).globalCx = s.globalCx := by
+  by_cases hp : a ≠ ck.root ∧ b ≠ ck.root
+  · have : renamePairs ck.root [(a, b)] = [(a, b)] := by simp [renamePairs, hp.1, hp.2]
+    simp only [rename, this, List.foldl_cons, List.foldl_nil, renameOne, hl]
+    exact ⟨rfl, rfl⟩
+  · have : renamePairs ck.root [(a, b)] = [] := by
+      simp only [renamePairs, List.filter_cons, List.filter_nil]
+      split
+      · rename_i h; simp at h; exact absurd h hp
+      · rfl
+    simp only [rename, this, List.foldl_nil]
+    exact ⟨rfl, rfl⟩
+
+/-- **`rename_chain`**: a chain `a → b → d` inside ONE batch moves the text of `a` to `d` and leaves
+nothing (no text, no signature) under the intermediate name `b` nor under `a`. -/
+theorem rename_chain (s : State Mod Content Sig Err) (a b d : Mod) (c : Content)
+    (ha : a ≠ ck.root) (hb : b ≠ ck.root) (hd : d ≠ ck.root)
+    (hab : a ≠ b) (had : a ≠ d) (hbd : b ≠ d) (hl : lookup s.sources a = some c) :
+    lookup (rename ck s [(a, b), (b, d)]).sources d = some c ∧
+      lookup (rename ck s [(a, b), (b, d)]).sources a = none ∧
+      lookup (rename ck s [(a, b), (b, d)]).sources b = none ∧
+      lookup (rename ck s [(a, b), (b, d)]).globalCx d = some (ck.sig d c) ∧
+      lookup (rename ck s [(a, b), (b, d)]).globalCx a = none ∧
+      lookup (rename ck s [(a, b), (b, d)]).globalCx b = none := by
+  have hp : renamePairs ck.root [(a, b), (b, d)] = [(a, b), (b, d)] := by
+    simp [renamePairs, ha, hb, hd]
+  have h2 : lookup (insert (erase s.sources a) b c) b = some c := by simp [lookup_insert]
+  have hs : (rename ck s [(a, b), (b, d)]).sources =
+      insert (erase (insert (erase s.sources a) b c) b) d c := by
+    simp only [rename, hp, List.foldl_cons, List.foldl_nil, renameOne, hl, h2]; rfl
+  have hgc : (rename ck s [(a, b), (b, d)]).globalCx =
+      insert (erase (insert (erase s.globalCx a) b (ck.sig b c)) b) d (ck.sig d c) := by
+    simp only [rename, hp, List.foldl_cons, List.foldl_nil, renameOne, hl, h2]; rfl
+  have e1 : ¬ d = a := fun e => had e.symm
+  have e2 : ¬ d = b := fun e => hbd e.symm
+  have e3 : ¬ b = a := fun e => hab e.symm
+  refine ⟨?_, ?_, ?_, ?_, ?_, ?_⟩ <;>
+    simp [hs, hgc, lookup_insert, lookup_erase, e1, e2, e3]
 
 end Theorems
 
@@ -250,6 +340,14 @@ def eUnstable : EChecker Nat (List Nat) Nat Nat := { base := ckRename, sigAt := 
 
 example : 1 ∈ getErrors (runE eUnstable 1 [.update [(1, [])]] (fresh (eUnstable.at 0) [(1, []), (2, [1])])) 2
     ∧ 1 ∉ getErrors (fresh (eUnstable.at 0) [(1, []), (2, [1])]) 2 := by decide
+
+/-- `rename_self_identity` / `rename_chain` are not vacuous, and the self-rename keeps the diagnostics
+of the importers right (module 2 imports 1; `1 → 1`): -/
+example : getErrors (run ckRename [.rename [(1, 1)]] (fresh ckRename [(1, []), (2, [1])])) 2 = []
+    ∧ lookup (run ckRename [.rename [(1, 1)]] (fresh ckRename [(1, []), (2, [1])])).globalCx 1 = some 1 := by
+  decide
+example : (run ckRename [.rename [(1, 3), (3, 4)]] (fresh ckRename [(1, [7]), (2, [3])])).sources
+    = [(4, [7]), (2, [3])] := by decide
 
 /-- LSP glue: deleting a file the server has never heard of (and one it knows) after a rename. -/
 example : applyEvents 99 [.didRename [(some 1, some 3), (some 2, none)], .didDelete [none, some 2],
